@@ -422,4 +422,125 @@ theorem two_mem_length {l : List Nat} {a b : Nat} (ha : a ∈ l) (hb : b ∈ l) 
     exact absurd (h1.trans h2.symm) hne
   | _ :: _ :: _, _, _ => simp
 
+/-! ### strong connectivity of the components -/
+
+theorem reachSet_sound (g : Graph) (comp : List Nat) (x : Nat) :
+    ∀ (n y : Nat), y ∈ reachSet g comp x n → Reach g x y := by
+  intro n
+  induction n with
+  | zero => intro y hy; simp only [reachSet, List.mem_singleton] at hy; subst hy; exact .refl _
+  | succ n ih =>
+    intro y hy
+    simp only [reachSet, List.mem_eraseDups, List.mem_append, List.mem_filter, List.mem_flatMap] at hy
+    rcases hy with hy | ⟨⟨z, hz, hzy⟩, _⟩
+    · exact ih y hy
+    · exact (ih z hz).trans (Reach.single hzy)
+
+theorem sccOk_sound (g : Graph) (comp : List Nat) (h : sccOk g comp = true) :
+    ∀ a b, a ∈ comp → b ∈ comp → Reach g a b := by
+  match comp, h with
+  | [], _ => intro a b ha; simp at ha
+  | x :: rest, h =>
+    simp only [sccOk, List.all_eq_true, Bool.and_eq_true, List.contains_eq_mem, decide_eq_true_eq] at h
+    have from_x : ∀ b, b ∈ x :: rest → Reach g x b := by
+      intro b hb
+      rcases List.mem_cons.1 hb with hb | hb
+      · subst hb; exact .refl _
+      · exact reachSet_sound g _ _ _ _ (h b hb).1
+    have to_x : ∀ a, a ∈ x :: rest → Reach g a x := by
+      intro a ha
+      rcases List.mem_cons.1 ha with ha | ha
+      · subst ha; exact .refl _
+      · exact reachSet_sound g _ _ _ _ (h a ha).2
+    intro a b ha hb
+    exact (to_x a ha).trans (from_x b hb)
+
+theorem Reach.head_of_ne {g : Graph} {a b : Nat} (r : Reach g a b) (hne : a ≠ b) :
+    ∃ m, Edge g a m ∧ Reach g m b := by
+  cases r with
+  | refl => exact absurd rfl hne
+  | step e r' => exact ⟨_, e, r'⟩
+
+theorem exists_ne_of_length {l : List Nat} (hn : l.Nodup) (hl : l.length > 1) (c : Nat) :
+    ∃ y, y ∈ l ∧ y ≠ c := by
+  match l, hn, hl with
+  | a :: b :: _, hn, _ =>
+    by_cases hac : a = c
+    · refine ⟨b, by simp, ?_⟩
+      intro hbc
+      have : a = b := hac.trans hbc.symm
+      simp [this] at hn
+    · exact ⟨a, by simp, hac⟩
+
+theorem selfEdge_inv (g : Graph) : ∀ (es : List (Nat × List Nat)) (c : Nat),
+    selfEdge g es = some c → g.kind c = .const ∧ ∃ rs, (c, rs) ∈ es ∧ c ∈ rs := by
+  intro es
+  induction es with
+  | nil => intro c h; simp [selfEdge] at h
+  | cons p es ih =>
+    intro c h
+    obtain ⟨n, rs⟩ := p
+    simp only [selfEdge] at h
+    split at h
+    · next hc =>
+      simp only [Bool.and_eq_true, decide_eq_true_eq, List.contains_eq_mem] at hc
+      have : n = c := by simpa using h
+      subst this
+      exact ⟨hc.1, rs, by simp, hc.2⟩
+    · obtain ⟨k, rs', hm, hr⟩ := ih c h
+      exact ⟨k, rs', List.mem_cons_of_mem _ hm, hr⟩
+
+theorem mixedComponent_inv (g : Graph) : ∀ (comps : List (List Nat)) (c : Nat),
+    mixedComponent g comps = some c →
+    ∃ comp, comp ∈ comps ∧ comp.length > 1 ∧ c ∈ comp ∧ g.kind c = .const := by
+  intro comps
+  induction comps with
+  | nil => intro c h; simp [mixedComponent] at h
+  | cons x comps ih =>
+    intro c h
+    simp only [mixedComponent] at h
+    have firstConst_mem : ∀ (l : List Nat) (c : Nat), firstConst g l = some c → c ∈ l := by
+      intro l
+      induction l with
+      | nil => intro c h; simp [firstConst] at h
+      | cons n l ihl =>
+        intro c h
+        simp only [firstConst] at h
+        split at h
+        · have : n = c := by simpa using h
+          subst this; simp
+        · exact List.mem_cons_of_mem _ (ihl c h)
+    split at h
+    · next hx =>
+      split at h
+      · next n hn =>
+        have : n = c := by simpa using h
+        subst this
+        exact ⟨x, by simp, hx, firstConst_mem x n hn, firstConst_const g x n hn⟩
+      · obtain ⟨comp, a, b, c', d⟩ := ih c h
+        exact ⟨comp, List.mem_cons_of_mem _ a, b, c', d⟩
+    · obtain ⟨comp, a, b, c', d⟩ := ih c h
+      exact ⟨comp, List.mem_cons_of_mem _ a, b, c', d⟩
+
+theorem lookup_of_mem_nodup {β} : ∀ (l : List (Nat × β)) (k : Nat) (v : β),
+    (l.map Prod.fst).Nodup → (k, v) ∈ l → l.lookup k = some v := by
+  intro l
+  induction l with
+  | nil => intro k v _ h; simp at h
+  | cons p l ih =>
+    intro k v hn hm
+    obtain ⟨k', v'⟩ := p
+    simp only [List.map_cons, List.nodup_cons] at hn
+    rcases List.mem_cons.1 hm with h | h
+    · have h1 : k = k' := congrArg Prod.fst h
+      have h2 : v = v' := congrArg Prod.snd h
+      subst h1; subst h2
+      simp [List.lookup]
+    · have hne : k ≠ k' := by
+        intro e; subst e
+        exact hn.1 (List.mem_map.2 ⟨(k, v), h, rfl⟩)
+      have : (k == k') = false := by simpa using hne
+      simp only [List.lookup, this]
+      exact ih k v hn.2 h
+
 end RotoV.Tarjan
